@@ -153,6 +153,16 @@ DefaultValue == << <<IF dflt = "none" THEN "Z" ELSE dflt>> >>
 Raw == IF Winner = "default" THEN DefaultValue ELSE Value(src[Winner], Winner)
 Ideal == IF class \in StringClasses THEN Expand(Raw) ELSE Raw
 
+\* A map given by both files: the statement says the later file overrides the
+\* earlier one but not whether that is per map or per key.  Both are accepted;
+\* map entries are positional here (k1, k2, ..), so per key means per position.
+FileVal(x) == IF src[x] = "none" THEN <<>> ELSE Value(src[x], x)
+MergedRaw == LET a == FileVal("file2")
+                 b == FileVal("file1")
+                 n == IF Len(a) > Len(b) THEN Len(a) ELSE Len(b)
+             IN  [i \in 1..n |-> IF i <= Len(a) THEN a[i] ELSE b[i]]
+Accepted == {Ideal} \cup (IF class = "stringmap" /\ Winner \in Files THEN {Expand(MergedRaw)} ELSE {})
+
 Toks(v) == UNION {{v[i][j] : j \in DOMAIN v[i]} : i \in DOMAIN v}
 
 \* what validation demands of a listen address: exactly one colon (empty is allowed)
@@ -197,7 +207,7 @@ Eval ==
   /\ ~done
   /\ done' = TRUE
   /\ UNCHANGED <<class, cmdenv, dflt, src>>
-  /\ \/ /\ eff' = Ideal
+  /\ \/ /\ eff' \in Accepted
         /\ act' = [name |-> "Eval"]
      \/ /\ Faithful /\ SliceDev
         /\ eff' = Expand(<<Raw[1]>>)
@@ -221,7 +231,7 @@ TypeOK ==
         eff[i][j] \in {"?", "D", "Z", "P", "Q", "C", "true", "false"} \cup Refs
                       \cup UNION {OwnToks(s) : s \in SourceSet}
 
-IdealStep == done /\ "dev" \notin DOMAIN act
+IdealStep == done /\ eff = Ideal
 
 Below(s) == IF s = "default" THEN {} ELSE {t \in SourceSet : Rank(t) > Rank(s)}
 
@@ -264,7 +274,14 @@ ValidatedIsApplied ==
 
 \* the deviations really are deviations (they break the function above)
 DeviationsDiffer ==
-  done /\ "dev" \in DOMAIN act => eff # Ideal
+  done /\ "dev" \in DOMAIN act => eff \notin Accepted
+
+\* the only other accepted result: a map merged per key from the two files
+MapMergePerKey ==
+  done /\ "dev" \notin DOMAIN act /\ eff # Ideal =>
+     /\ class = "stringmap" /\ Winner \in Files
+     /\ \A i \in DOMAIN eff :
+           eff[i] = ExpandElem(IF i <= Len(FileVal("file2")) THEN FileVal("file2")[i] ELSE FileVal("file1")[i])
 
 \* the load is a function of the vector: nothing but the result changes
 InputsUntouched == [][UNCHANGED <<class, cmdenv, dflt, src>>]_vars
